@@ -1,11 +1,13 @@
 import IV.Model.Proto
 import IV.Model.Dr
 import IV.Model.Subgraphs
+import IV.Model.Incremental
 import IV.Model.DrWalk
-import IV.Model.DrDecl
 open IV IV.Proto IV.Dr
 
-/-! Driver for the engine model (C01–C04).  A world is sent line by line, then `run`/`levels`. -/
+/-! Driver for the incremental / pooled drivers (C04, also used by C03): the world protocol of Drivers/Dr.lean (`new`, `decl`,
+`seed` — same parsing, copied because a driver cannot import another driver) plus `incr`: generate_incremental + run_incremental /
+run_all of IV/Model/Incremental.lean, broker handling included. -/
 
 inductive BodySpec where
   | val | none | resp | multi (xs : List Nat) | always (e : Exc) | ifNone (k : Nat) (e : Exc) | point
@@ -171,22 +173,6 @@ def sortNats (l : List Nat) : List Nat := l.foldr (fun x acc =>
     | y :: ys => if x ≤ y then x :: y :: ys else y :: ins x ys
   ins x acc) []
 
-/-- raw items: `o3;g4,5;g1,n2.3` — a group member `n2.3` is a LIST written inside the list (`n` alone: an empty one) -/
-def parseRItems (s : String) : Option (List RItem) :=
-  if s = "-" then some [] else
-  (s.splitOn ";").foldr (fun p acc => match acc with
-    | none => none
-    | some l =>
-      if p.startsWith "o" then (p.drop 1).toString.toNat?.map (fun n => RItem.one n :: l)
-      else if p = "g" then some (RItem.group [] :: l)
-      else if p.startsWith "g" then
-        (((p.drop 1).toString.splitOn ",").foldr (fun m acc2 => match acc2 with
-          | none => none
-          | some ms =>
-            if m.startsWith "n" then (nats '.' (m.drop 1).toString).map (fun cs => Member.nested cs :: ms)
-            else m.toNat?.map (fun c => Member.comp c :: ms)) (some [])).map (fun ms => RItem.group ms :: l)
-      else none) (some [])
-
 def handle (s : St) (fs : List String) : St × String :=
   match fs with
   | ["new"] => ({}, "ok")
@@ -255,18 +241,6 @@ def handle (s : St) (fs : List String) : St × String :=
           | none => "cyclic"
         (s, "graph=" ++ gs ++ "|levels=" ++ lv)
     | _, _ => (s, "bad-op")
-  | ["derive2", kind, clsReq, clsOpt, pos, kwReq, kwTuple, kwOpt, kwOptList] =>
-    let opt : Option OptArg :=
-      if kwOpt = "-" then some .absent
-      else if kwOpt.startsWith "s" then (kwOpt.drop 1).toString.toNat?.map OptArg.single
-      else if kwOpt.startsWith "m" then (nats ',' (kwOpt.drop 1).toString).map OptArg.many
-      else none
-    match parseKind kind, parseRItems clsReq, nats ',' clsOpt, parseRItems pos, parseRItems kwReq, decBool kwTuple, opt, decBool kwOptList with
-    | some k, some cr, some co, some ps, some kr, some kt, some ko, some kl =>
-      match derive2 ⟨k, cr, co, ps, kr, kt, ko, kl⟩ with
-      | some d => (s, "req=" ++ showNats "," d.requires ++ "|alo=" ++ showGroups d.atLeastOne ++ "|deps=" ++ showNats "," d.deps)
-      | none => (s, "raised:TypeError")
-    | _, _, _, _, _, _, _, _ => (s, "bad-op")
   | ["derive", kind, clsReq, clsOpt, pos, kwReq, kwOpt] =>
     let opt : Option OptArg :=
       if kwOpt = "-" then some .absent
@@ -278,6 +252,31 @@ def handle (s : St) (fs : List String) : St × String :=
       let d := derive ⟨k, cr, co, ps, kr, ko⟩
       (s, "req=" ++ showNats "," d.requires ++ "|alo=" ++ showGroups d.atLeastOne ++ "|deps=" ++ showNats "," d.deps)
     | _, _, _, _, _, _ => (s, "bad-op")
+  | ["incr", passed, ss, g, deps, dependents, prio, univ, sched] =>
+    -- G in dict order; deps / dependents / prio as for `subgraphs`; passed = 1: the caller's broker (identity 0, holding the
+    -- seeds, skip recording `ss`), passed = 0: no broker.  sched = s: serial, r: the tasks taken in REVERSE order by the pool.
+    -- Answer: the identities handed back (0 = the caller's object, 1.. = new objects) and the final contents of each, in order.
+    match decBool passed, decBool ss, nats ',' g, parseGraph deps, parseGraph dependents, parseGraph prio, nats ',' univ with
+    | some passed, some ss, some G, some ds, some dts, some ps, some u =>
+      let look (t : Graph) (c : Comp) : List Comp := match t.find? (·.1 == c) with | some kv => kv.2 | none => []
+      let r : Rel := ⟨look ds, look dts⟩
+      let pr (c : Comp) : Nat := (look ps c).headD 0
+      let subs := getSubgraphs r pr G
+      let tasks := generateIncremental subs (if passed then some 0 else none) 1
+      let heap : Heap := fun ref => if ref = 0 then ⟨Broker.seeded s.seed, ss⟩ else Cell.fresh
+      -- `run_order` of the yielded dict `{s: get_dependencies(s) for s in seen}`
+      let orderOf (sg : List Comp) : List Comp := (toposort sortNats (sg.map (fun k => (k, r.deps k)))).getD []
+      let sch := if sched = "r" then tasks.reverse else tasks
+      let (hp, refs) := runAllPool s.world orderOf heap tasks sch
+      let showCell (ref : Ref) : String :=
+        let b := (hp ref).broker
+        let inst := u.filterMap (fun c => (b.inst c).map (fun v => s!"{c}:{showVal v}"))
+        let miss := u.filterMap (fun c => (b.missing c).map (fun m => s!"{c}:{showNats ";" m.required}/{showGroups m.atLeastOne}"))
+        let excs := sortStrs (b.excLog.map (fun e => s!"{e.target}:{showExc e.exc}"))
+        s!"#{ref}[" ++ showNats "," (sortNats ((tasks.filter (·.2 == ref)).flatMap (·.1))) ++ "]inst=" ++ " ".intercalate inst
+          ++ "|missing=" ++ " ".intercalate miss ++ "|exc=" ++ " ".intercalate excs
+      if sched = "s" ∨ sched = "r" then (s, " // ".intercalate (refs.map showCell)) else (s, "bad-op")
+    | _, _, _, _, _, _, _ => (s, "bad-op")
   | _ => (s, "bad-op")
 
 def main : IO Unit := serveState ({} : St) handle
